@@ -356,6 +356,41 @@ impl<'tcx> Ex<'tcx> {
                 ld.mutability.is_mut()
             );
         }
+        out.push_str("],\"promoted\":[");
+        {
+            // string / integer literals held by promoted constants (e.g. `x != "NO_COMPU_METHOD"` compares with promoted[i])
+            let mut firstp = true;
+            if matches!(kind, DefKind::Fn | DefKind::AssocFn | DefKind::Closure) {
+                if let Some(ldid) = did.as_local() {
+                    let promoted = tcx.promoted_mir(ldid.to_def_id());
+                    for (pi, pb) in promoted.iter_enumerated() {
+                        let mut lits: Vec<String> = Vec::new();
+                        for bb in pb.basic_blocks.iter() {
+                            for st in &bb.statements {
+                                if let StatementKind::Assign(bx) = &st.kind {
+                                    let (_, rv) = &**bx;
+                                    let mut ops: Vec<&Operand<'tcx>> = Vec::new();
+                                    match rv {
+                                        Rvalue::Use(o, _) => ops.push(o),
+                                        Rvalue::Aggregate(_, os) => { for o in os.iter() { ops.push(o); } }
+                                        Rvalue::Cast(_, o, _) => ops.push(o),
+                                        _ => {}
+                                    }
+                                    for o in ops {
+                                        if let Operand::Constant(c) = o {
+                                            lits.push(format!("{}", c.const_));
+                                        }
+                                    }
+                                }
+                            }
+                        }
+                        if !firstp { out.push(','); }
+                        firstp = false;
+                        let _ = write!(out, "[{},{}]", pi.as_usize(), esc(&lits.join(" ")));
+                    }
+                }
+            }
+        }
         out.push_str("],\"upvars\":[");
         for (i, (f, n)) in upvar_names.iter().enumerate() {
             if i > 0 {
